@@ -2,6 +2,8 @@ package main
 
 import (
 	"fmt"
+	"strings"
+	"sync"
 	"os"
 	"runtime/debug"
 	"go/types"
@@ -658,7 +660,13 @@ func (it *Interp) selectOp(fr *frame, x *ssa.Select) Value {
 	if len(r) == 1 {
 		idx = r[0]
 	} else if len(r) > 1 {
-		idx = r[it.choose(len(r), "select")]
+		if it.isModelFn(fr.fn) {
+			// a select inside an environment model: its ready cases are equivalent outcomes by construction
+			// (models test liveness explicitly); take the first in source order instead of forking
+			idx = r[0]
+		} else {
+			idx = r[it.choose(len(r), "select")]
+		}
 	}
 	if idx >= 0 && it.sch.dpor && states[idx].c != nil && !states[idx].c.timer {
 		// happens-before: synchronise with the channel actually used
@@ -773,4 +781,20 @@ func (it *Interp) raceAccessAt(p Ptr, write bool, pos string) {
 		}
 		s.reads[key][t.id] = me
 	}
+}
+
+var modelFnCache sync.Map
+
+func (it *Interp) isModelFn(fn *ssa.Function) bool {
+	if v, ok := modelFnCache.Load(fn); ok {
+		return v.(bool)
+	}
+	f := fn
+	for f.Parent() != nil {
+		f = f.Parent()
+	}
+	name := it.prog.Fset.Position(f.Pos()).Filename
+	r := strings.Contains(name, "zz_verif_w_") // world-model files only; harness entry points keep Go's semantics
+	modelFnCache.Store(fn, r)
+	return r
 }
